@@ -9,7 +9,12 @@
           | (ae N I) array element read | (aw N I) array element write | (aa N LEN) assign_range
           | h header | (g K) group K | (d K) data K | gn size() | gb begin() | (gi I) operator[]
           | inc ++it | deref *it | dn size() | dd data() | (de I) element read | (dw I) element write
-          | (dr COUNT) resize(count, default_init) | (da LEN) assign_range | sz sbepp::size_bytes
+          | (dr COUNT) resize(count, default_init) | (da LEN) assign_range / assign(first,last)
+          | (dan N) assign(n, v) / assign_string | (dai N) assign(ilist) | dpb push_back | dpop pop_back
+          | dcl clear | sz sbepp::size_bytes
+    optional (canary SLACK FILL): the view [p, p+n) is followed by SLACK writable bytes holding FILL;
+    RUN then is o | A (bytes behind the view untouched), w (completed, bytes behind the view written),
+    W (assertion AFTER such a write), F, U
   One accessor chain per `p`, called on `make_view<Msg>(base, n)` over a buffer whose first `n`
   bytes are those of the image.  NEEDS_END: end of the bytes the chain needs according to the
   specification (value tree + layout), computed by the caller.
@@ -69,6 +74,11 @@ def parseOp : SExp → Option Op
   | .list [.atom "dw", a] => do pure (.dElem (← nat? a) true)
   | .list [.atom "dr", a] => do pure (.dResize (← nat? a))
   | .list [.atom "da", a] => do pure (.dAssign (← nat? a))
+  | .list [.atom "dan", a] => do pure (.dAssignN (← nat? a))
+  | .list [.atom "dai", a] => do pure (.dAssignIlist (← nat? a))
+  | .atom "dpb" => some .dPush
+  | .atom "dpop" => some .dPop
+  | .atom "dcl" => some .dClear
   | _ => none
 
 def parsePath : SExp → Option (Nat × List Op)
@@ -95,6 +105,34 @@ def runChar (c : Ctx) (evs : List Ev) : Char :=
       | .check b off size _ => decide (c.base + b ≥ 2 ^ 63) || decide (off + size ≥ 2 ^ 63)
       | _ => false) then 'U'
   else resChar r
+
+/-- canary mode: the view is followed by `slack` writable bytes: `o`/`A` as before with the bytes behind
+    the view untouched, `w` = completed although a write went behind the view, `W` = assertion after
+    such a write -/
+def canaryChar (c : Ctx) (slack : Nat) (evs : List Ev) : Char :=
+  let r := runCanary c.n slack evs 0 false
+  let upto := match r.1 with
+    | .ok => evs.length
+    | .assertFailed i => i
+    | .fault i => i
+    | .ub i => i
+  if (evs.take (upto + 1)).any (fun e => match e with
+      | .check b off size _ => decide (c.base + b ≥ 2 ^ 63) || decide (off + size ≥ 2 ^ 63)
+      | _ => false) then 'U'
+  else match r with
+    | (.ok, false) => 'o'
+    | (.ok, true) => 'w'
+    | (.assertFailed _, false) => 'A'
+    | (.assertFailed _, true) => 'W'
+    | (.fault _, _) => 'F'
+    | (.ub _, _) => 'U'
+
+def blockCanary (c : Ctx) (slack : Nat) (m : MsgL) (paths : List (Nat × List Op)) : String :=
+  let evs := paths.map (fun p => (p.1, walk c (.msg m) p.2))
+  let runS := String.ofList (evs.map (fun (_, e) => match e with | none => '?' | some e => canaryChar c slack e))
+  let guardS := String.ofList (evs.map (fun (_, e) => match e with | none => '?' | some e => if guard e then 'g' else '-'))
+  let specS := String.ofList (evs.map (fun (ne, _) => if ne ≤ c.n then 'i' else 'o'))
+  runS ++ "/" ++ guardS ++ "/" ++ specS
 
 def block (c : Ctx) (m : MsgL) (paths : List (Nat × List Op)) : String :=
   let evs := paths.map (fun p => (p.1, walk c (.msg m) p.2))
@@ -125,6 +163,19 @@ def handle (payload : String) : String :=
         let m : MsgL := { hdrSize := hs, blOff := blOff, blSize := blSize, level := level }
         let bo := if bo = "be" then ByteOrder.big else ByteOrder.little
         let mk (n : Nat) : Ctx := { base := base, n := n, bo := bo, buf := img }
+        -- canary mode: (canary SLACK FILL): memory = first n bytes of the image, then SLACK bytes FILL
+        match req.field? "canary" with
+        | some [sl, fl] =>
+          match nat? sl, nat? fl, ns with
+          | some slack, some fill, "all" =>
+            ",".intercalate ((List.range (img.length + 1)).map (fun n =>
+              blockCanary { base := base, n := n, bo := bo, buf := img.take n ++ List.replicate slack fill } slack m paths))
+          | some slack, some fill, ns =>
+            match ns.toNat? with
+            | some n => blockCanary { base := base, n := n, bo := bo, buf := img.take n ++ List.replicate slack fill } slack m paths
+            | none => "bad-op bad-n"
+          | _, _, _ => "bad-op bad-canary"
+        | _ =>
         match ns with
         | "all" => ",".intercalate ((List.range (img.length + 1)).map (fun n => block (mk n) m paths))
         | ns =>
